@@ -9,6 +9,6 @@ if ! patch -s -p1 -d "$tmp" < "$d/patch.diff"; then echo "PATCH DOES NOT APPLY";
 find "$tmp" -name __pycache__ -type d -prune -exec rm -rf {} + 2>/dev/null
 for p in $(echo "$props" | tr ',' ' '); do
   if [ -n "$cases" ]; then export VERIF_CASES="$cases"; fi
-  VERIF_REPO="$tmp" VERIF_OUT="$tmp/out" timeout 1500 /verif/check "$p" quick 2>/dev/null | grep -v OpenLineage | grep -v "^KNOWN" | cut -c1-330 | head -6
+  VERIF_REPO="$tmp" VERIF_OUT="$tmp/out" timeout 1500 /verif/check "$p" "${VERIF_SEEDED_TIER:-quick}" 2>/dev/null | grep -v OpenLineage | grep -v "^KNOWN" | cut -c1-330 | head -6
 done
 rm -rf "$tmp"
